@@ -96,6 +96,9 @@ def sortedRanged (names : List Name) : Option Bytes :=
 def crlf : Bytes := [13, 10]
 def prompt : Bytes := bstr "powerman> "
 
+/-- `val[strcspn(val, "\r\n")] = 0`: a device-supplied value is shown up to its first CR or LF (fix F16) -/
+def firstLine (v : Bytes) : Bytes := v.takeWhile fun b => b != 13 && b != 10
+
 /-- the reply written when the last action has reported back -/
 def finalReply (exprange : Bool) (c : CmdC) : Option Bytes :=
   let entries := c.names.filterMap fun n => c.args.find? (·.node == n)
@@ -112,7 +115,7 @@ def finalReply (exprange : Bool) (c : CmdC) : Option Bytes :=
     body.map (· ++ (if c.error then bstr "211 Query completed with errors" else bstr "103 Query complete") ++ crlf)
   | .temp => do
     let lines := entries.flatMap fun a => match a.val with
-      | some v => bstr "303 " ++ ofChars a.node ++ bstr ": " ++ v ++ crlf
+      | some v => bstr "303 " ++ ofChars a.node ++ bstr ": " ++ firstLine v ++ crlf
       | none => []
     let missing := (entries.filter (·.val.isNone)).map (·.node)
     let tail ← if missing.isEmpty then some [] else (sortedRanged missing).map fun r => bstr "303 " ++ r ++ bstr ": unknown" ++ crlf
